@@ -1,5 +1,5 @@
 (* C02: lookup is exact set membership, for every byte string, and never faults. *)
-From X Require Import Base Arr Dac Trie Spec Wf IfaceQuery All Examples ExampleFacts.
+From X Require Import Builder IfaceBuild Base Arr Dac Trie Spec Wf IfaceQuery All AllBuild Examples ExampleFacts.
 Local Open Scope N_scope.
 
 Theorem C02_lookup_exact : forall v L P K, wf_for v L P K ->
@@ -13,6 +13,12 @@ Theorem C02_lookup_walks_tree : forall v L P K T, wf_for v L P K -> the_tree L =
   forall q, bytes_ok q = true -> lookup P q = Ok (option_map (rank_of (lg_terms L)) (tree_find T q)).
 Proof. exact lookup_node_thm. Qed.
 
+(* headline: for EVERY valid key list and EVERY byte string q *)
+Theorem C02_for_all_valid_K : forall v tbl K req, valid_keys K = true -> small_keys K -> perm_okb tbl = true ->
+  exists P, build v tbl K req = Ok P /\
+  forall q, bytes_ok q = true -> lookup P q = Ok (lk P q) /\ (lk P q <> None <-> spec_member K q = true).
+Proof. exact headline_lookup. Qed.
+
 Example C02_nonvacuous : forall v, exists L P, ex_logical v = Ok L /\ wf_for v L P ex_keys.
 Proof. exact ex_wf_for. Qed.
 Example C02_example : match ex_trie V15 with
@@ -21,3 +27,4 @@ Example C02_example : match ex_trie V15 with
 Proof. vm_compute. repeat split; try reflexivity. discriminate. Qed.
 
 Print Assumptions C02_lookup_exact. Print Assumptions C02_lookup_walks_tree.
+Print Assumptions C02_for_all_valid_K.
